@@ -675,6 +675,7 @@ func (blockchain *Blockchain) Commit() abciTypes.ResponseCommit {
 	}
 
 	{ // Persist application hash and height
+		blockchain.appDB.StartCommit()
 		blockchain.appDB.SetLastBlockHash(hash)
 		blockchain.appDB.SetLastHeight(height)
 
@@ -683,6 +684,7 @@ func (blockchain *Blockchain) Commit() abciTypes.ResponseCommit {
 		blockchain.appDB.SaveVersions()
 		blockchain.appDB.SaveEmission()
 		blockchain.appDB.SavePrice()
+		blockchain.appDB.FinishCommit()
 	}
 
 	// Clear mempool
